@@ -212,9 +212,9 @@ PROPS["C12"] = Prop(
 PARAMS["C12"] = {"rule": "accept/reject pairs differing in one length, bound or lifetime: append/prepend/pop_back/pop_front/remove/swap_remove/split (owned, &, &mut)/concat/flatten/unflatten/zip for all length pairs in 0..=4, each with inferred result and with the right, +1 and -1 annotated result length; ==, partial_cmp, cmp, from_array/into_array, From/Into/AsRef/AsMut with native arrays, from/into_chunks(_mut) for all (N, U) pairs; tuples 0..=13 fields vs lengths 0..=13; Send/Sync/Clone/Copy of the array, a reference and the by-value iterator for element types u8, Rc, Cell, MutexGuard, String and a non-Clone type at N in {0,1,3,4}; for each of 36 reference-returning APIs: use in scope (accept), return as 'static (reject), overwrite the source while the view lives (reject), two live views (reject for &mut, accept for &). Non-trivial = a rejected program."}
 
 PROPS["C17"] = Prop(
-    "C17", ["GA.Props.C17"],
-    [Engine("serde", scen.serde, sig=lambda l: l.split()[0] + "/" + ("script" if "steps=" in l else "fmt"))],
-    trusted=[KERNEL, TRANSLATOR, HARNESS,
+    "C17", ["GA.Props.C17", "GA.Props.BodySerde"],
+    [Engine("serde", scen.serde, sig=lambda l: l.split()[0] + "/" + ("script" if "steps=" in l else "fmt"), body_view=True)],
+    trusted=[KERNEL, TRANSLATOR, BODYTIE, HARNESS,
              "modelled, not verified: serde's SeqAccess / SerializeTuple contracts, serde_json and bincode themselves (their framing is observed by running them), IntrusiveArrayBuilder's drop guard (C04/C07 model, regenerated)"],
     assumptions=["a source that reports Some(0) remaining after N reads while still holding elements is outside the claim (the model follows the code there and the oracle does not judge it)"],
     nontrivial=lambda s, impl: " n=0 " not in s and "res=err" in impl or "op=ser" in s and " n=0" not in s,
